@@ -468,6 +468,43 @@ func runC07Direction(mode string, rev int, transport string, r *rep.Report) (key
 	return
 }
 
+// runC07Closing: a polling session with a buffered packet and no poll pending is closed
+// gracefully by the application while the client stays silent: the graceful close cannot
+// complete, so the heartbeat deadline must end the session - exactly on time.
+func runC07Closing(rev int, PI, PT time.Duration, r *rep.Report) (key, msg string) {
+	rig.Bubble(r.T(), func() {
+		so := &config.ServerOptions{}
+		so.SetAllowEIO3(true)
+		so.SetPingInterval(PI)
+		so.SetPingTimeout(PT)
+		w := rig.NewWorld(rig.Options{Server: so})
+		defer w.Shutdown()
+		cl, err := w.Connect(rig.ClientCfg{Rev: rev, Transport: "polling", NoAutoPong: true})
+		rig.Wait()
+		sock := w.Socket(0)
+		if err != nil || sock == nil {
+			key, msg = "c07-handshake-failed", fmt.Sprint(err)
+			return
+		}
+		openAt := w.Tap.Of(sock.Id(), "connection")[0].At
+		sock.Send(types.NewStringBufferString("buffered"), nil, nil)
+		sock.Close(false)
+		time.Sleep(3*(PI+PT) + time.Second)
+		rig.Wait()
+		ev := w.Tap.Of(sock.Id(), "close")
+		want := openAt + PI + PT
+		if len(ev) == 0 {
+			key, msg = "c07-no-timeout-at-deadline", fmt.Sprintf("revision %d session in state %s (graceful close pending, client silent): no close by open+%v, deadline was open+%v", rev, sock.ReadyState(), w.Tap.Now()-openAt, want-openAt)
+			return
+		}
+		if ev[0].Str != "ping timeout" || ev[0].At != want {
+			key, msg = "c07-timeout-at-wrong-time", fmt.Sprintf("revision %d closing session: closed with %q at open+%v, expected 'ping timeout' at open+%v", rev, ev[0].Str, ev[0].At-openAt, want-openAt)
+		}
+		cl.Stop()
+	})
+	return
+}
+
 func TestC07(t *testing.T) {
 	r := rep.New(t, "C07")
 	defer r.Flush()
@@ -504,6 +541,22 @@ func TestC07(t *testing.T) {
 		}
 		if key != "" {
 			r.Violation(key, msg, c)
+		}
+	}
+	nc := r.N(40, 2000)
+	for i := 0; i < nc; i++ {
+		rng := r.CaseRand(77, i)
+		PI := time.Duration(1+rng.IntN(200)) * time.Millisecond
+		PT := time.Duration(1+rng.IntN(200)) * time.Millisecond
+		rev := 4
+		if rng.IntN(3) == 0 {
+			rev = 3
+		}
+		key, msg := runC07Closing(rev, PI, PT, r)
+		r.Case(fmt.Sprintf("closing-silent/v%d/%v/%v", rev, PI, PT), true)
+		r.Obs("closing_sessions_checked", 1)
+		if key != "" {
+			r.Violation(key, msg, map[string]any{"lane": "silent polling client, buffered packet, Close(false): heartbeat deadline must still close the session", "rev": rev, "PI": PI.String(), "PT": PT.String()})
 		}
 	}
 	nd := r.N(16, 400)
